@@ -20,6 +20,9 @@ WHAT = {
  'zero-valued member': ("C18", "flag_by_member_names: loader/dumper creation raised 'math domain error' for a flag with NONE = 0 (flag_creation: F3z)"),
  'unhashable list items': ("C18", "flag_by_member_names loader, allow_duplicates=False: ['A', ['A']] -> TypeError escaped instead of LoadError (flag_names_rej_* i0=8)"),
  'multi-bit members': ("C18", "flag_by_exact_value loader: load(11, Flag(LOW=3, MID=6, HIGH=12)) -> ValueError escaped (flag_exact_FMulti d=11)"),
+ 'integer-keyed mappings': ("C04", "list-layout model loader: {0: 1} -> bare KeyError (plain ExceptionGroup under ALL), {0: 1, 1: 2} accepted as a list even in strict mode (also C07) (C03 sweep / load_kinds_as_list* rk=2)"),
+ 'unexpected field-loader errors': ("C04", "model loader, DebugTrail.ALL: ValueError from a field loader wrapped into AggregateLoadError (a LoadError with a non-LoadError leaf) (model_fields_plain v2=-2)"),
+ 'ExcludedTypeLoadError stored': ("C05", "ExcludedTypeLoadError.input_value held the excluded type and excluded_type the datum: the offending value of a str/Mapping given to an iterable/tuple/list-layout loader was not reported (C05 model_kinds_as_list_forbid rk=3; l2 root errors)"),
 }
 WHAT.update(json.load(open('/verif/tools/fixed_extra.json')) if __import__('os').path.exists('/verif/tools/fixed_extra.json') else {})
 log = subprocess.run(["git", "-C", "/repo", "log", "--format=%h %s"], capture_output=True, text=True).stdout.splitlines()
